@@ -4,6 +4,8 @@ import (
 	"bytes"
 	"fmt"
 	"io"
+	"math/rand"
+	"sync"
 
 	"github.com/golang/snappy"
 	"github.com/lni/vfs"
@@ -214,6 +216,134 @@ func runRW(r *common.Run) {
 			wit.Detail = "read back identical"
 			r.Sample(wit)
 		}
+	}
+	// images read and written at overlapping times (one round per batch; thorough: 4)
+	if r.Replay == "" {
+		for k := 0; k < r.Pick(1, 4); k++ {
+			runRWConcurrent(r, r.Batch*8+k)
+		}
+	}
+}
+
+// runRWConcurrent: several snapshot images are written and read at overlapping
+// times in one process (several shards of one NodeHost recover, save and stream
+// snapshots on different workers): every image must still read back
+// byte-identical, whatever the other readers and writers are doing.
+func runRWConcurrent(r *common.Run, round int) {
+	rng := r.Rand("rw-concurrent", round)
+	nFiles := 6
+	type img struct {
+		fs   vfs.FS
+		fp   string
+		orig []byte
+		sp   fileSpec
+	}
+	mk := func(rng *rand.Rand, i int) (*img, string) {
+		sp := fileSpec{Kind: []string{kindW2, kindW2, kindStream}[rng.Intn(3)]}
+		if rng.Intn(2) == 0 {
+			sp.CT = pb.Snappy
+		}
+		n := []int{bs + bs/2 + rng.Intn(bs), 2*bs + rng.Intn(5000), rng.Intn(200000), 3*bs - 40 + rng.Intn(80)}[rng.Intn(4)]
+		orig := genPayload(rng, n)
+		sp.Payload = orig
+		sp.WSegs = genSegs(rng, n)
+		fs := vfs.NewMem()
+		_ = fs.MkdirAll("/d", 0o755)
+		fp := fmt.Sprintf("/d/snapshot-%016X.gbsnap", 100+i)
+		var err error
+		p, pv := try(func() { _, err = buildFile(fs, fp, sp) })
+		if p {
+			return nil, fmt.Sprintf("writer panicked: %v", pv)
+		}
+		if err != nil {
+			return nil, "writer failed: " + err.Error()
+		}
+		return &img{fs: fs, fp: fp, orig: orig, sp: sp}, ""
+	}
+	var imgs []*img
+	for i := 0; i < nFiles; i++ {
+		im, msg := mk(rng, i)
+		if im == nil {
+			r.Violation("rw:concurrent:write-failed", msg, map[string]interface{}{"round": round})
+			return
+		}
+		// sequential read first: the image itself is fine
+		if res := loadFile(im.fs, im.fp, nil); res.failed() || !bytes.Equal(res.Data, im.orig) {
+			r.Violation("rw:concurrent:sequential-read-failed", "image not readable before the concurrent phase: "+res.Err+res.Panic, map[string]interface{}{"round": round})
+			return
+		}
+		imgs = append(imgs, im)
+	}
+	type bad struct{ key, detail string }
+	var mu sync.Mutex
+	var bads []bad
+	var loads, writes, bytesRead int64
+	var wg sync.WaitGroup
+	readers, rounds := 8, r.Pick(6, 30)
+	for g := 0; g < readers; g++ {
+		wg.Add(1)
+		grng := rand.New(rand.NewSource(rng.Int63()))
+		go func(g int) {
+			defer wg.Done()
+			for k := 0; k < rounds; k++ {
+				im := imgs[(g+k)%len(imgs)]
+				res := loadFile(im.fs, im.fp, genReadSizes(grng, len(im.orig)))
+				mu.Lock()
+				loads++
+				bytesRead += int64(len(res.Data))
+				if res.failed() {
+					bads = append(bads, bad{"rw:concurrent:" + im.sp.Kind + ":intact-file-not-loadable", fmt.Sprintf("reader %d round %d: intact image (%d bytes, compression %d) not loadable while other images are read: %s%s", g, k, len(im.orig), im.sp.CT, res.Err, res.Panic)})
+				} else if !bytes.Equal(res.Data, im.orig) {
+					bads = append(bads, bad{"rw:concurrent:" + im.sp.Kind + ":bytes-differ", fmt.Sprintf("reader %d round %d: read back %d bytes, wrote %d, first difference at %d", g, k, len(res.Data), len(im.orig), firstDiff(res.Data, im.orig))})
+				}
+				mu.Unlock()
+				if k%3 == 2 && im.sp.Kind == kindW2 {
+					// the other users of the block reader
+					_, _ = rsm.GetV2PayloadChecksum(im.fp, im.fs)
+					_, _ = rsm.IsShrunkSnapshotFile(im.fp, im.fs)
+				}
+			}
+		}(g)
+	}
+	// two writers produce and verify new images meanwhile
+	for w := 0; w < 2; w++ {
+		wg.Add(1)
+		wrng := rand.New(rand.NewSource(rng.Int63()))
+		go func(w int) {
+			defer wg.Done()
+			for k := 0; k < rounds/2+1; k++ {
+				im, msg := mk(wrng, 1000+w*100+k)
+				mu.Lock()
+				writes++
+				mu.Unlock()
+				if im == nil {
+					mu.Lock()
+					bads = append(bads, bad{"rw:concurrent:write-failed", msg})
+					mu.Unlock()
+					continue
+				}
+				res := loadFile(im.fs, im.fp, nil)
+				if res.failed() || !bytes.Equal(res.Data, im.orig) {
+					mu.Lock()
+					bads = append(bads, bad{"rw:concurrent:" + im.sp.Kind + ":written-during-reads-not-identical", "image written while others are read does not read back identical: " + res.Err + res.Panic})
+					mu.Unlock()
+				}
+			}
+		}(w)
+	}
+	wg.Wait()
+	r.Case(loads > 0, common.Hash("rw-concurrent", round, r.Seed))
+	r.Count("concurrent_phase_loads", loads)
+	r.Count("concurrent_phase_images_written_meanwhile", writes)
+	r.Count("concurrent_phase_bytes_read_back", bytesRead)
+	r.Count("concurrent_phase_readers", int64(readers))
+	seen := map[string]bool{}
+	for _, b := range bads {
+		if seen[b.key] {
+			continue
+		}
+		seen[b.key] = true
+		r.Violation(b.key, b.detail, map[string]interface{}{"round": round, "readers": readers, "rounds": rounds, "failures": len(bads)})
 	}
 }
 
